@@ -137,6 +137,7 @@ def check_property(prop, tier, seed, only=None):
             rc = 2
     # known findings: the restricted-to-region run must still show the violation
     for (kj, k), i in zip(kjobs, kinfos):
+        print("[%s] %-40s %-13s (known-finding region run)" % (prop, i["harness"], i["status"]))
         still = [v for v in i["violations"] if v.get("confirmed")]
         if still:
             line = "KNOWN-FINDING: property=%s %s" % (prop, k["what"])
